@@ -123,8 +123,21 @@ def run(res, tier, seed):
         d = os.path.join(root, str(j))
         os.makedirs(d, exist_ok=True)
         multi = rng.random() < 0.3 and ".include" not in s and j not in (0, 1, 2)
-        if multi:
+        tie = j == 3 or (j % 40 == 7)
+        if tie:
+            # two files whose undefined labels are used at the same offsets (positions do not know their
+            # file): every channel - each a process of its own - must attribute the one error to the same file
+            w = rng.randrange(3, 7)
+            nm = lambda: "".join(rng.choice("abcdefghijklmnopqrstuvwxyz") for _ in range(w))
+            u1, u2, l2 = nm(), nm(), "".join(rng.choice("abcdefghijklmnopqrstuvwxyz") for _ in range(4))
+            ins = rng.choice(["j   {}", "beqz a0, {}", "jal {}", "la t0, {}"])
+            files = {"base.s": ["main:", "    " + ins.format(u1), '.include "' + l2 + '.s"'],
+                     l2 + ".s": [l2 + ":", "    " + ins.format(u2)]}
+            multi = True
+            stats["label_tie_inputs"] = stats.get("label_tie_inputs", 0) + 1
+        if multi and not tie:
             files, mapping = split_tree(rng, s.rstrip("\n").split("\n"))
+        if multi:
             for name, lines in files.items():
                 with open(os.path.join(d, name), "w") as f:
                     f.write("\n".join(lines) + "\n")
